@@ -19,6 +19,9 @@ def run(ctx):
     res.rule("C07-R6", "writes stay inside the frame: the message header is written only with >= 16 free bytes on every path (test taken false, or a "
                         "frame opened just before), the chunk is min(free - 16, ...) computed before the header write, the header writer takes exactly "
                         "16 bytes, and header and chunk are written at frame[size() - free]")
+    res.rule("C07-R7", "the sizes a call works with are this call's: the frame template, the free-byte count and min/max are (re)defined from this call's "
+                        "DataContext on every path before they are read (C10-R2's definite-reset analysis) — a template kept from a call with another "
+                        "maximum gives frames of the old size while the free count follows the new one")
     res.not_decided += ["min <= len <= max and exact tiling as arithmetic over all (min, max, len)"]
     nt, nf = E.rule_frames_zeroed_trimmed(res, "C07-R1", m)
     E.rule_no_empty_frame(res, "C07-R2", m)
@@ -26,6 +29,8 @@ def run(ctx):
     E.rule_one_length(res, "C07-R4", m)
     E.rule_segment_source_advances(res, "C07-R5", m)
     E.rule_writes_inside_frame(res, "C07-R6", m)
+    E.rule_state_reset(res, "C07-R7", "C07-R7", m)
+    res.floor("C07-R7", 15)
     res.floor("C07-R1", 5)
     res.floor("C07-R4", 4)
     res.floor("C07-R5", 1)
